@@ -551,7 +551,8 @@ class LogRule(object):
         fd_rules = FD_RULES.get((step_ratio, parity, num_terms))
         if _verif.ON:
             _verif.emit('rule_get', key=(float(step_ratio), int(parity), int(num_terms)),
-                        hit=fd_rules is not None)
+                        hit=fd_rules is not None, m=str(method), n=int(self.n),
+                        o=int(self.order))
             _verif.yield_point('rule_get')
         if fd_rules is None:
             fd_mat = self._fd_matrix(step_ratio, parity, num_terms)
